@@ -204,6 +204,92 @@ def run_fault_case(rn, text, expect, switches=()):
         rn.drop(fname)
 
 
+# ---- the same input spread over several files (schemas found through EXPRESS_PATH) -------------------------------------
+
+_IMPORT = re.compile(r"(?is)\b(?:USE|REFERENCE)\s+FROM\s+([A-Za-z][A-Za-z0-9_]*)")
+
+
+def split_files(text):
+    """-> (main text, {file name: text}) or None.  Every schema that another schema of the file imports from is moved into
+    its own <schema>.exp (where the front end looks for a schema it does not know); at least one importing schema stays."""
+    sc = M.scan(text)
+    if not sc.ok or len(sc.schemas) < 2:
+        return None
+    by_name = {x.name.lower(): x for x in sc.schemas}
+    spans = {}
+    toks = sc.toks
+    for x in sc.schemas:
+        # text span of the schema: from its SCHEMA keyword to the ';' after END_SCHEMA
+        a = x.toks[0].start
+        b = x.end_tok.end
+        j = text.find(";", b)
+        spans[x.name.lower()] = (a, j + 1 if j >= 0 else b)
+    imported = set()
+    for x in sc.schemas:
+        a, b = spans[x.name.lower()]
+        for m in _IMPORT.finditer(text[a:b]):
+            n = m.group(1).lower()
+            if n in by_name and n != x.name.lower():
+                imported.add(n)
+    stay = [n for n in by_name if n not in imported]
+    if not imported or not stay:
+        return None
+    files = {}
+    main = text
+    for n in sorted(imported, key=lambda n_: -spans[n_][0]):
+        a, b = spans[n]
+        files[n + ".exp"] = main[a:b] + "\n"
+        main = main[:a] + main[b:]
+    return main, files
+
+
+def run_multifile_case(rn, text, expect):
+    """The input of a fault case again, with the imported schemas in files of their own.  Oracle: (1) the expected diagnostic
+    is printed as for the single file, (2) every located diagnostic is attributed to one of the files, and every
+    quoted text occurs in the file it is attributed to.  -> (problems, n files) or None when the input cannot be split."""
+    sp = split_files(text)
+    if sp is None:
+        return None
+    main, files = sp
+    fname = rn.put(main)
+    written = []
+    try:
+        for fn, body in files.items():
+            with open(os.path.join(rn.dir, fn), "wb") as f:
+                f.write(body.encode("latin-1"))
+            written.append(fn)
+        r, diags, others = rn.run(fname, ("-w", "all"))
+        probs = []
+        if r.timeout:
+            return [("timeout", "check-express did not finish in 30 s (multi-file)")], len(files) + 1
+        if r.sig:
+            return [("signal", "check-express died on %s with the schemas in separate files; stderr: %s" % (r.status, r.err[-300:]))], len(files) + 1
+        texts = dict((fn, body) for fn, body in files.items())
+        texts[fname] = main
+        for d in diags:
+            if not d.located:
+                continue
+            base = os.path.basename(d.file)
+            if base not in texts:
+                probs.append(("multifile:attribution", "diagnostic attributed to %r, the files are %s: %s" % (d.file, sorted(texts), d.raw[:200])))
+                continue
+            low = texts[base].lower()
+            if d.code:
+                for conv, arg in zip(d.code.get("slots", []), d.args or []):
+                    if conv == "%s" and arg and re.match(r"^[A-Za-z_][A-Za-z0-9_]*$", arg) and arg.lower() not in low \
+                            and arg.lower() in text.lower():
+                        probs.append(("multifile:attributed-to-a-file-that-does-not-contain-the-quoted-text",
+                                      "%r is quoted under file %s, which does not contain it: %s" % (arg, base, d.raw[:200])))
+        # (2b) the diagnostic the fault was built for is printed here too.  (The complete lists are NOT compared: a parse-time
+        # error stops a single file at once, while in an imported file it lets the importing file go on to follow-up errors.)
+        probs += [("multifile:" + sg, dt) for sg, dt in check_expect(rn.table, diags, expect)]
+        return probs, len(files) + 1
+    finally:
+        rn.drop(fname)
+        for fn in written:
+            rn.drop(fn)
+
+
 # ---- switches ---------------------------------------------------------------------------------------------------
 
 def switch_settings(table, classes, rnd, tier):
@@ -427,6 +513,16 @@ def work_base(arg):
                             sig = "signal:" + tname
                         fails.append({"sig": sig, "what": "[%s/%s%s] %s" % (tname, m["flavour"], " " + " ".join(sw) if sw else "", det), "text": m["text"],
                                       "expect": [] if probe_only else expect, "switches": list(sw), "kind": "fault", "template": tname})
+                    if sw == ("-w", "all") or (not sw and not by_warning):
+                        if not probs and not probe_only and not M.TEMPLATES[tname].get("lexical"):
+                            # the same input with its imported schemas in files of their own
+                            mf = run_multifile_case(rn, m["text"], expect)
+                            if mf is not None:
+                                mprobs, nfiles = mf
+                                ev.case(common.chash([m["text"], "multifile"]), True, classes=["multi-file:%d-files" % nfiles, "template:" + tname])
+                                for sig, det in mprobs:
+                                    fails.append({"sig": sig, "what": "[%s/%s multi-file] %s" % (tname, m["flavour"], det), "text": m["text"],
+                                                  "expect": expect, "switches": ["-w", "all"], "kind": "multifile", "template": tname})
         # switch part
         rnd = random.Random("%s|switch" % src["rseed"])
         settings = switch_settings(table, classes, rnd, tier)
@@ -485,6 +581,9 @@ def reoracle(f, want_seen=False):
             probs, _r, _d = run_fault_case(rn, f["text"], f["expect"], tuple(f["switches"]))
         elif f["kind"] == "unknown-class":
             probs = unknown_class_case(rn, f["text"], f["switches"][1], f["switches"][0])
+        elif f["kind"] == "multifile":
+            mf = run_multifile_case(rn, f["text"], f["expect"])
+            probs = mf[0] if mf else []
         else:
             args = f["switches"]
             buffered = bool(args and args[0] == "-B")
